@@ -329,7 +329,7 @@ func run(c *h.Ctx, cs Case) {
 }
 
 func draw(t *rapid.T) Case {
-	cfg := tok.GenCfg{Algs: keys.AllAlgs, ExtremeTime: true, NoTopNull: true,
+	cfg := tok.GenCfg{Algs: keys.AllAlgs, ExtremeTime: true, NoTopNull: true, WideInts: true,
 		Values: val.Cfg{Depth: 3, MaxLen: 3, SafeInts: true, Big: true, Keys: []string{"a", "b", "aa", "x", "é", "with space", "zz"}}}
 	cs := Case{Tok: tok.Gen(t, cfg)}
 	if rapid.Bool().Draw(t, "interleave") {
